@@ -1,23 +1,3 @@
-//! Checks over pure functions of the roles / protobuf crates: C02 (decision function), C04, C07,
-//! C09, C11.
-mod c02;
-mod c04;
-mod c07;
-mod c09;
-mod c11;
-
 fn main() {
-    let env = common::Env::from_args();
-    let code = match env.property.as_str() {
-        "C02" => c02::main(&env),
-        "C04" => c04::main(&env),
-        "C07" => c07::main(&env),
-        "C09" => c09::main(&env),
-        "C11" => c11::main(&env),
-        p => {
-            eprintln!("rolesprop: unknown property {p}");
-            2
-        }
-    };
-    std::process::exit(code);
+    rolesprop::engine_main()
 }
